@@ -172,6 +172,31 @@ class C04(spec.Spec):
                 out.filters["variant-built-differently"] += 1
                 continue
             fam.append((label, exp, d))
+        # the same content reached by editing records IN PLACE after they have been hashed and compared
+        # (add_asserted_type, add_attributes, set_time), next to the same content built directly
+        try:
+            for how in ("add_asserted_type", "add_attributes"):
+                e = self.fresh(h).doc
+                recs = list(e.get_records()) + [r for b in e.bundles for r in b.get_records()]
+                if not recs:
+                    break
+                for r in recs:
+                    hash(r)
+                _ = (e == e, e != base, len(set(recs)))
+                T = rebuild.Namer().qn("http://a/EditedInPlace")
+                for r in recs:
+                    if how == "add_asserted_type":
+                        r.add_asserted_type(T)
+                    else:
+                        r.add_attributes([(rebuild.Namer().qn(machine.PROV_URI + "type"), T)])
+                top, bundles = mdoc
+                addt = lambda rs: tuple((t, i, tuple(sorted(set(a) | {(machine.PROV_URI + "type", ("qn", "http://a/EditedInPlace"))}, key=repr))) for t, i, a in rs)
+                m2 = (addt(top), tuple((u, addt(rs)) for u, rs in bundles))
+                fam.append(("edited-in-place:" + how, "diff", e))
+                if how == "add_asserted_type":
+                    fam.append(("built-like-edited", "diff", rebuild.rebuild(m2)))
+        except Exception as ex:
+            out.filters["in-place-edit-raised:%s" % type(ex).__name__] += 1
         if len(fam) > 70:
             out.notes["family-truncated"] += 1
             fam = fam[:70]
@@ -223,7 +248,7 @@ class C04(spec.Spec):
                             out.violation("not-transitive", "doc", {"a": fam[i][0], "b": fam[j][0], "c": fam[k][0]}, hh)
         # bundles pairwise
         bl = []
-        for label, exp, d in fam[:25]:
+        for label, exp, d in (fam[:22] + [f for f in fam[22:] if f[0].startswith(('edited', 'built-like'))]):
             for b in d.bundles:
                 bl.append((label, b, frozenset(setobs_rec(r) for r in b.get_records())))
         for (l1, b1, s1) in bl:
@@ -239,7 +264,7 @@ class C04(spec.Spec):
                     out.violation("not-symmetric", "bundle", {"left": l1, "right": l2}, hh)
         # records pairwise
         recs = []
-        for label, exp, d in fam[:25]:
+        for label, exp, d in (fam[:22] + [f for f in fam[22:] if f[0].startswith(('edited', 'built-like'))]):
             for r in d.get_records():
                 recs.append((label, r, setobs_rec(r)))
             for b in d.bundles:
